@@ -258,6 +258,33 @@ impl<'tcx> Cx<'tcx> {
                     o.push_str(",null");
                 }
             }
+            ty::Ref(_, inner, _) if matches!(inner.kind(), ty::Array(el, _) if *el == tcx.types.u8) => {
+                // a `&[u8; N]` constant (the template of `format_args!`): its bytes, so that a rule can tell `{}` from `{:.0}`
+                let mut done = false;
+                if let ty::Array(_, len) = inner.kind() {
+                    if let Some(n) = len.try_to_target_usize(tcx) {
+                        if let Ok(cv) = c.const_.eval(tcx, tenv, c.span) {
+                            if let ConstValue::Scalar(rustc_middle::mir::interpret::Scalar::Ptr(ptr, _)) = cv {
+                                let (prov, offset) = ptr.prov_and_relative_offset();
+                                if let rustc_middle::mir::interpret::GlobalAlloc::Memory(alloc) = tcx.global_alloc(prov.alloc_id()) {
+                                    let start = offset.bytes() as usize;
+                                    let end = start + n as usize;
+                                    let a = alloc.inner();
+                                    if end <= a.len() {
+                                        let bytes = a.inspect_with_uninit_and_ptr_outside_interpreter(start..end);
+                                        let hex: String = bytes.iter().map(|b| format!("{:02x}", b)).collect();
+                                        let _ = write!(o, ",{{\"bytes\":{}}}", q(&hex));
+                                        done = true;
+                                    }
+                                }
+                            }
+                        }
+                    }
+                }
+                if !done {
+                    o.push_str(",null");
+                }
+            }
             ty::Ref(_, inner, _) if inner.is_str() => {
                 let mut done = false;
                 if let Ok(cv) = c.const_.eval(tcx, tenv, c.span) {
